@@ -346,7 +346,7 @@ class SecureField(Field):
                 raise ValueError("invalid ciphertext")
 
             try:
-                ciphertext = base64.b64decode(ciphertext_b64)
+                ciphertext = base64.b64decode(ciphertext_b64, validate=True)
             except binascii.Error as err:
                 raise ValueError("invalid ciphertext") from err
 
